@@ -1184,6 +1184,17 @@ def c14(tr, cx):
                 tr.count('C14.events_vs_horizon')
                 if not (e[1] < T): tr.v('C14', 'event_at_or_after_horizon', (e[1], T, e[2], e[3])); break
         if not (fin['min_next'] >= T): tr.v('C14', 'event_before_horizon_not_executed', (str(fin['min_next']), T))
+        # independent of the engine's cached next-event dates: nothing that is due before T is still pending in the final state
+        for nid, nd in fin['snap']['nodes'].items():
+            if nk(spec, nid)[0] != 'Node': continue
+            for i in nd['inds']:
+                if i['id'] in nd['intr'] or i['blocked']: continue
+                tr.count('C14.pending_checks')
+                if i['server'] is not None and i['sed'] is not False and i['sed'] < T:
+                    tr.v('C14', 'service_end_due_before_horizon_still_pending', (nid, i['id'], str(i['sed']), T)); break
+                has_ren = bool(spec.get('reneging')) and spec['reneging'].get(i['cls'], [None] * nid)[nid - 1] is not None   # (a stale date from an earlier node is not used here)
+                if i['server'] is None and has_ren and i['ren'] != INF and i['ren'] < T and nk(spec, nid)[1] in ('int', 'schedule'):
+                    tr.v('C14', 'renege_due_before_horizon_still_pending', (nid, i['id'], str(i['ren']), T)); break
         if fin['clock'] != fin['min_next']: tr.v('C14', 'clock_not_at_next_event', (str(fin['clock']), str(fin['min_next'])))
     elif run['method'] == 'customers':
         key = {'Complete': 'exit_completed', 'Finish': 'n_exit', 'Arrive': 'n_arr', 'Accept': 'n_accepted'}[run['cmethod']]
